@@ -676,6 +676,39 @@ def run_sched_engine(ctx, spec):
     for cls, inst in (s.get("known") or {}).items():
         if cls in kf:
             ctx.known.append(f"{cls} {kf[cls]} [{inst[:160]}]")
+    # the finished runs of the rows scenario against the executable LTS of ConcStore.v (ConcCheck.v): the
+    # writers' transactions, the recorded latch order, the values / liveness / Count at the end
+    if s.get("conc_files"):
+        corigin = json.load(open(os.path.join(out, "conc_origin.json")))
+        what = {1: "the LTS of ConcStore.v does not accept the recorded latch order (a thread latched a block out of its ascending order, or twice)",
+                2: "the block commits were applied in another order than the recorded latch order",
+                3: "a committed transaction did not apply every block it wrote",
+                4: "a row is live / dead although the committed row markers say otherwise",
+                5: "a cell is not the fold of the committed operations in the order the commits were applied to its block",
+                6: "Count differs from the number of rows the committed markers leave"}
+        concerns = {1: ["C15", "C09", "C18"], 2: ["C15", "C09"], 3: ["C15", "C09", "C02"], 4: ["C02", "C11"], 5: ["C09", "C01", "C02", "C10"], 6: ["C11", "C02"]}
+        cbad = []
+        for cf in s["conc_files"]:
+            p = subprocess.run(["timeout", "1200", "coqc", "-Q", COQ, "ColumnV", cf], cwd=out, stdout=subprocess.PIPE, stderr=subprocess.STDOUT, text=True, preexec_fn=vlib.big_stack)
+            m = re.search(r"M\s*=\s*(.*?)\n\s*:\s*list", p.stdout, re.S)
+            if p.returncode != 0 or not m:
+                ctx.violation("correspondence", "ConcCheck.v could not be evaluated on the recorded runs: " + p.stdout[-1500:], found_input=False)
+                continue
+            cbad += [(int(a), int(b)) for a, b in re.findall(r"\((\d+),\s*(\d+)\)", m.group(1))]
+        cov["concstore_runs_replayed"] = cov.get("concstore_runs_replayed", 0) + s.get("conc_runs", 0)
+        ctx.checker_cmds.append("coqc conc_*.v   # ConcCheck.conc_mismatches: ConcStore.run on the recorded rows-scenario runs")
+        shown = set()
+        for k, code in cbad:
+            if (k, code) in shown or len(shown) >= 6:
+                continue
+            shown.add((k, code))
+            org = corigin[k] if k < len(corigin) else "?"
+            if ctx.pid in concerns.get(code, []):
+                sc, cs, choices = org.split(":", 2)
+                ctx.violation("concstore", f"{what.get(code, code)} (run {k}: scenario {sc} cfg {cs})",
+                              data={"engine": "sched", "scenario": sc, "cfg_seed": int(cs), "choices": json.loads(choices.replace(" ", ",")), "concstore_code": code})
+            else:
+                ctx.other.append({"concerns": concerns.get(code, []), "what": what.get(code, str(code)), "origin": org[:120]})
     # the recorded latch traces against the protocol model
     if spec.get("locks", True) and s.get("trace_files"):
         origin = json.load(open(os.path.join(out, "lock_origin.json")))
